@@ -409,6 +409,23 @@ pub fn finish(ctx: &Ctx, mut rep: Report) -> i32 {
     cov.insert("rule".into(), json!(rep.rule));
     let mut samples = rep.stats.samples.clone();
     samples.truncate(8);
+    // a sample is documentation, not a replay file: a very large case (megabyte buffers, long
+    // inputs) is kept as the head of its JSON text
+    let samples: Vec<Value> = samples
+        .into_iter()
+        .map(|v| {
+            let txt = v.to_string();
+            if txt.len() <= 4000 {
+                v
+            } else {
+                let mut cut = 4000;
+                while !txt.is_char_boundary(cut) {
+                    cut -= 1;
+                }
+                json!({"truncated_json_text": format!("{}…", &txt[..cut]), "full_length": txt.len()})
+            }
+        })
+        .collect();
     cov.insert("samples".into(), json!(samples));
     cov.insert("exhaustive".into(), json!(rep.exhaustive));
     cov.insert("labels".into(), json!(rep.stats.labels));
